@@ -54,7 +54,19 @@ func parseDump(b []byte) []gInfo {
 	return out
 }
 
-// parked states only an external event can end.
+// parkedG reports whether a goroutine is parked in a state that only an external event can end.
+// A bare "semacquire" needs a second look: in this Go version sync.WaitGroup.Wait parks with that
+// wait reason (its stack then starts with sync.runtime_Semacquire), but so does a goroutine that
+// waits inside the runtime - e.g. one that wants to start a GC cycle while this very dump holds
+// the world semaphore. The latter shows no sync frame (runtime frames are hidden) and ends by
+// itself: it is not parked (see DESIGN 10.21).
+func parkedG(g gInfo) bool {
+	if g.State == "semacquire" {
+		return strings.Contains(g.Frames, "sync.runtime_Semacquire")
+	}
+	return parkedState(g.State)
+}
+
 func parkedState(s string) bool {
 	switch s {
 	case "chan receive", "chan send", "select", "select (no cases)", "semacquire",
@@ -114,7 +126,7 @@ func waitQuiescent(maxPolls int, ignore func(gInfo) bool) (quiesceResult, bool) 
 			if ignore != nil && ignore(g) {
 				continue
 			}
-			if !parkedState(g.State) {
+			if !parkedG(g) {
 				quiet = false
 				break
 			}
@@ -163,7 +175,7 @@ func waitQuiescentOrSpinning(window int) (q quiesceResult, ok bool, spinning str
 			if g.State == "running" && !isVegetaG(g) {
 				continue // the caller itself
 			}
-			if !parkedState(g.State) {
+			if !parkedG(g) {
 				if !isVegetaG(g) {
 					return q, false, "" // something of the harness is still at work: no verdict
 				}
